@@ -815,6 +815,7 @@ impl ElementRaw {
         // set the parent of the new element to the current element
         let mut move_element_locked = move_element.0.write();
         move_element_locked.parent = ElementOrModel::Element(self_weak);
+        move_element_locked.file_membership.clear();
         let dest_path = if move_element_locked.is_identifiable() {
             let new_name = move_element_locked.make_unique_item_name(model, &dest_path_prefix)?;
             format!("{dest_path_prefix}/{new_name}")
@@ -936,6 +937,7 @@ impl ElementRaw {
         // set the parent of the new element to the current element
         let mut move_element_locked = move_element.0.write();
         move_element_locked.parent = ElementOrModel::Element(self_weak);
+        move_element_locked.file_membership.clear();
         let dest_path = if move_element_locked.is_identifiable() {
             let new_name = move_element_locked.make_unique_item_name(model, &dest_path_prefix)?;
             format!("{dest_path_prefix}/{new_name}")
